@@ -76,17 +76,31 @@ func vfChoices(tag string, n, k int) []int {
 	return r
 }
 
-// vfCheckGets: Get of every universe key agrees with the model.
-func vfCheckGets(t *Trie, m *vfModel, keys [][]byte, ob string) {
+// vfCheckGets: Get of every universe key agrees with the model (cls: class of known finding F14, see vfF14).
+func vfCheckGets(t *Trie, m *vfModel, keys [][]byte, ob string, cls bool) {
 	for i, k := range keys {
 		got, err := t.Get(k)
 		vf.Assert(err == nil, ob+".err")
-				if m.present[i] {
-			vf.Assert(bytes.Equal(got, m.val[i]), ob+".val")
+		if m.present[i] {
+			vf.AssertKnown(bytes.Equal(got, m.val[i]), ob+".val", vfF14id, cls)
 		} else {
-			vf.Assert(len(got) == 0, ob+".absent")
+			vf.AssertKnown(len(got) == 0, ob+".absent", vfF14id, cls)
 		}
 	}
+}
+
+const vfF14id = "F14-trie-delete-between-inserts"
+
+// vfF14: trigger of known finding F14 (maybeAddShortcutToKV): the batch deletes a key S that is the ONLY content of
+// its subtree (a lone shortcut) and also carries a smaller and a larger key that fall into that subtree. After handling
+// the deletion the loop goes on and appends keys[:i], S, keys[i:] a second time, so the merged batch is unsorted and
+// contains duplicates (and the deleted shortcut again). In an N=3 universe k0<k1<k2 this is: content == {k1},
+// op(k1) = delete, k0 and k2 both in the batch.
+func vfF14(m *vfModel, ops []int) bool {
+	if len(ops) != 3 {
+		return false
+	}
+	return !m.present[0] && m.present[1] && !m.present[2] && ops[1] == 2 && ops[0] != 0 && ops[2] != 0
 }
 
 // vfCanonicalRoot: root of a fresh trie (own store) that receives the model content in ONE batch.
@@ -118,10 +132,10 @@ func vfC10ab(pre int) {
 	n := vf.Param("N", 2)
 	nb := vf.Param("batches", 1)
 	commit := vf.Param("commit", 1) != 0
-	if pre >= 1<<uint(n) {
+	if vf.Param("tierskip", 0) != 0 || pre >= 1<<uint(n) {
 		vf.Reach("C10.a")
 		vf.Reach("C10.b")
-		return // this pre-content shape does not exist for N keys (job kept so that both tiers share one job list)
+		return // shape does not exist for N keys, or job switched off in this tier (tierskip)
 	}
 	keys := vfUniverse(n)
 	kv := vf.NewKV()
@@ -137,15 +151,17 @@ func vfC10ab(pre int) {
 		vf.Assert(t.Commit() == nil, "C10.a.commit")
 	}
 	for b := 0; b < nb; b++ {
-		vfBatch(t, m, keys, vfChoices("op", n, 3), "C10.a")
+		ops := vfChoices("op", n, 3)
+		cls := vfF14(m, ops)
+		vfBatch(t, m, keys, ops, "C10.a")
 		vf.Reach("C10.a")
-		vfCheckGets(t, m, keys, "C10.a")
+		vfCheckGets(t, m, keys, "C10.a", cls)
 		vf.Reach("C10.b")
 		want := vfCanonicalRoot(m, keys, "C10.b")
 		if want == nil {
-			vf.Assert(len(t.Root) == 0, "C10.b")
+			vf.AssertKnown(len(t.Root) == 0, "C10.b", vfF14id, cls)
 		} else {
-			vf.Assert(bytes.Equal(t.Root, want), "C10.b")
+			vf.AssertKnown(bytes.Equal(t.Root, want), "C10.b", vfF14id, cls)
 		}
 		if commit {
 			vf.Assert(t.Commit() == nil, "C10.a.commit")
@@ -163,6 +179,12 @@ func VF_C10_ab_p4() { vfC10ab(4) }
 func VF_C10_ab_p5() { vfC10ab(5) }
 func VF_C10_ab_p6() { vfC10ab(6) }
 func VF_C10_ab_p7() { vfC10ab(7) }
+
+// N=3 jobs (params N=3): pre-content shapes 0, 1, 2, 4; shape 2 = {k1} is the shape of known finding F14
+func VF_C10_ab_n3p0() { vfC10ab(0) }
+func VF_C10_ab_n3p1() { vfC10ab(1) }
+func VF_C10_ab_n3p2() { vfC10ab(2) }
+func VF_C10_ab_n3p4() { vfC10ab(4) }
 
 // VF_C10_a_fresh: Get of a key outside the content returns nothing (and of a content key its value), on the
 // canonical trie of every subset of the universe; the queried key is symbolic in the same bit positions.
